@@ -5,7 +5,9 @@ package c07
 import (
 	"encoding/json"
 	"fmt"
+	"net"
 	"strconv"
+	"sync"
 	"testing"
 	"time"
 
@@ -35,6 +37,7 @@ type hop struct {
 }
 
 type healCase struct {
+	ByName    bool  `json:"announce_by_name"` // nodes announce themselves as localhost:port (the proxy's name differs from the peer address)
 	Masters   int   `json:"masters"`
 	Replicas  int   `json:"replicas"`
 	StartDown []int `json:"start_down"`
@@ -148,6 +151,9 @@ func checkHeal(c healCase) (inf healInfo, v *verdict) {
 	}
 	defer w.Close()
 	w.ListFailed = true
+	if c.ByName && localhostOK() {
+		w.AnnounceHost = "localhost"
+	}
 	ms := w.Masters()
 	w.AssignEven(ms)
 	h := &harness{w: w, down: map[int]bool{}, inf: &inf}
@@ -378,6 +384,25 @@ func checkHeal(c healCase) (inf healInfo, v *verdict) {
 	return inf, nil
 }
 
+var lhOnce sync.Once
+var lhOK bool
+
+// localhostOK: "localhost" must resolve to the loopback address the simulated nodes listen on.
+func localhostOK() bool {
+	lhOnce.Do(func() {
+		addrs, err := net.LookupHost("localhost")
+		if err != nil {
+			return
+		}
+		for _, a := range addrs {
+			if a == "127.0.0.1" {
+				lhOK = true
+			}
+		}
+	})
+	return lhOK
+}
+
 type layoutShim struct{ n int }
 
 func (l *layoutShim) apply(lay sim.Layout, out []int) {
@@ -437,7 +462,7 @@ func keysForSlots(slots []int, n int) []string {
 }
 
 func genHeal(t *rapid.T) healCase {
-	c := healCase{Masters: rapid.IntRange(2, 4).Draw(t, "masters"), Replicas: rapid.IntRange(0, 1).Draw(t, "replicas")}
+	c := healCase{Masters: rapid.IntRange(2, 4).Draw(t, "masters"), Replicas: rapid.IntRange(0, 1).Draw(t, "replicas"), ByName: rapid.IntRange(0, 2).Draw(t, "byname") == 0}
 	if rapid.IntRange(0, 4).Draw(t, "startdown") == 0 {
 		c.StartDown = []int{rapid.IntRange(0, c.Masters-1).Draw(t, "sd")}
 	}
